@@ -15,6 +15,7 @@ From V Require Import Gen.NodesXml Model.Xml Spec.XmlLex.
 From V Require Import Gen.Cli Model.CliModel Spec.CliDoc.
 From V Require Import Gen.Tagfilter Model.Tagfilter Spec.GfmFilter.
 From V Require Import Spec.Shape.
+From V Require Import Spec.Doc.
 Extraction Language OCaml.
 Set Extraction KeepSingleton.
 
@@ -158,4 +159,11 @@ Extraction "model.ml"
   Shape.s3
   Shape.s6
   Shape.s6w
+  Doc.canonical
+  Doc.write
+  Doc.ref_html
+  Doc.tree_of
+  Doc.norm
+  Doc.std_opts
+  Doc.mkDoc
 .
